@@ -31,9 +31,9 @@ INFO = {
         'quick': {'counters': {'cycles': 300, 'models_compared': 300, 'byte_identity_checks': 600, 'fortran_style_files': 50,
                                'real_files': 2, 'records_resliced_in_situ': 5000},
                   'seen': {'configuration': 8}, 'nontrivial': 200},
-        'thorough': {'counters': {'cycles': 7000, 'models_compared': 7000, 'byte_identity_checks': 14000, 'fortran_style_files': 1500,
-                                  'real_files': 6, 'records_resliced_in_situ': 200000},
-                     'seen': {'configuration': 10}, 'nontrivial': 5000},
+        'thorough': {'counters': {'cycles': 21000, 'models_compared': 21000, 'byte_identity_checks': 42000, 'fortran_style_files': 3000,
+                                  'real_files': 6, 'records_resliced_in_situ': 600000},
+                     'seen': {'configuration': 10}, 'nontrivial': 15000},
     },
     'watchdog_s': {'quick': 1200, 'thorough': 5400},
     'assumptions': ['values are generated to fit their fields (C02 decides the others)',
@@ -47,7 +47,7 @@ INFO = {
 def plan(tier, seed):
     if tier == 'quick':
         return [{'kind': 'gen', 'n': 350} for _ in range(5)] + [{'kind': 'fortran', 'n': 300} for _ in range(2)] + [{'kind': 'real', 'which': 'small'}]
-    return [{'kind': 'gen', 'n': 600} for _ in range(13)] + [{'kind': 'fortran', 'n': 900} for _ in range(2)] + [{'kind': 'real', 'which': 'all'}]
+    return [{'kind': 'gen', 'n': 2400} for _ in range(13)] + [{'kind': 'fortran', 'n': 1800} for _ in range(2)] + [{'kind': 'real', 'which': 'all'}]
 
 
 # ---------------------------------------------------------------------------------------------------
